@@ -69,16 +69,17 @@ def generate(tier, rng):
             # flow driven
             for rep in range(2):
                 cases.append(dict(stream="exact" if ex else "tolerance", coq=ex, cls="simple", grid=grid, gname=gname, extra=extra,
-                                  driver=[rng.randint(0, 9) for _ in range(N)], outflow=[rng.randint(0, 5) for _ in range(N)]))
+                                  driver=[rng.randint(0, 9) for _ in range(N)], outflow=[rng.randint(0, 5) for _ in range(N)],
+                                  time_letter=("y" if rep else "t")))
             for lt in lifetimes(rng, grid, extra, k):
                 k += 1
                 drv = [rng.randint(0, 8) for _ in range(N)]
                 cases.append(dict(stream="exact" if ex else "tolerance", coq=ex, cls="idsm", grid=grid, gname=gname, extra=extra, lifetime=lt, driver=drv,
-                                  int_dtype=(k % 3 == 0)))
+                                  int_dtype=(k % 3 == 0), time_letter=("y" if k % 4 == 1 else "t")))
                 for solver in ("manual", "lapack"):
                     stk = [rng.randint(0, 40) for _ in range(N)] if k % 2 else sorted(rng.randint(0, 60) for _ in range(N))
                     cases.append(dict(stream="exact" if ex else "tolerance", coq=ex, cls="sdsm", solver=solver, grid=grid, gname=gname, extra=extra, lifetime=lt, driver=stk,
-                                      int_dtype=(k % 3 != 1)))
+                                      int_dtype=(k % 3 != 1), time_letter=("y" if k % 4 == 2 else "t")))
             # fixed lifetime (0/1 survival) for the inflow-driven model
             cases.append(dict(stream="exact" if ex else "tolerance", coq=ex, cls="idsm", grid=grid, gname=gname, extra=extra,
                               lifetime=dict(kind="fixed", mean=[3, 7, 12][k % 3], inflow_at="start"), driver=[rng.randint(0, 8) for _ in range(N)]))
